@@ -175,6 +175,21 @@ impl Method for PhoneticMethod {
             Suggestion::empty()
         }
     }
+
+    #[cfg(feature = "verif")]
+    fn verif_state(&self) -> String {
+        let mut selections: Vec<_> = self.selections.iter().collect();
+        selections.sort();
+        serde_json::json!({
+            "method": "phonetic",
+            "buffer": self.buffer,
+            "prev_selection": self.prev_selection,
+            "selections": selections,
+            "cache_keys": self.suggestion.verif_cache_keys(),
+            "user_autocorrect": self.suggestion.user_autocorrect.len(),
+        })
+        .to_string()
+    }
 }
 
 // Implement Default trait on PhoneticMethod for testing convenience.
